@@ -10,7 +10,7 @@ import os, sys, json, random, subprocess, re, shutil, glob
 from fractions import Fraction
 from common import *
 
-N_THEOREMS = 44
+N_THEOREMS = 47
 
 # ------------------------------------------------------------------------------------------- cases
 # A case is a dict; numbers are ints k meaning k/8, or 'I' / '-I'.
@@ -110,15 +110,17 @@ def corpus_cases():
     for tag, api, sess in (('h', 0, 9001), ('hc', 1, 9002)):
         c = base_case(tag + '1', 3, 1)
         c.update(session=sess, api=api, types=[1, 0, 1], lb=[0, 0, 0], ub=[40, 80, 8], c=[8, 0, 0], A=[[(0, 8), (1, 8)]],
-                 ssuf=[{'name': 'sstatus', 'kind': 0, 'entries': [(0, 8), (1, 16), (2, 24)]}])
+                 ssuf=[{'name': 'sstatus', 'kind': 0, 'entries': [(0, 8), (1, 16), (2, 24)]}],
+                 cn=['ia', 'cb', 'bc'], rn=['R0'])                     # named model first ...
         out.append(c)
         c = base_case(tag + '2', 4, 0)
         c.update(session=sess, api=api, types=[0, 1, 0, 0], lb=[0, 0, 0, 0], ub=[40, 8, 80, 80], c=[0, 0, 16, 0],
-                 Q=[[], [], [], [(3, 16)]], c0=8, solx=[8, 16, 24, 32], ssuf=[{'name': 'sstatus', 'kind': 0, 'entries': [(0, 8), (3, 16)]}])
+                 Q=[[], [], [], [(3, 16)]], c0=8, solx=[8, 16, 24, 32], ssuf=[{'name': 'sstatus', 'kind': 0, 'entries': [(0, 8), (3, 16)]}],
+                 cn=['p', 'q', 'r', 's'])                               # ... then column names only (the .row must disappear) ...
         out.append(c)
         c = base_case(tag + '3', 2, 1)
         c.update(session=sess, api=api, types=[1, 0], lb=[0, 0], ub=[40, 80], c=[8, 16], A=[[(1, 8)]], solx=[24, 40])
-        out.append(c)
+        out.append(c)                                                   # ... then no names at all (the .col must disappear)
     # healthy QP: diagonal Hessian on three columns
     c = base_case('okdiag', 4, 1)
     c.update(types=[1, 0, 1, 1], lb=[0, -8, 0, 0], ub=[8, 8, 8, 24], Q=[[(0, 16)], [(1, 8)], [], [(3, 24)]], c=[8, 0, -8, 0], A=[[(0, 8), (2, 16)]],
@@ -902,7 +904,7 @@ def run(ck):
     else:
         proof_ok, failing = False, ['translator: ' + (out + err).strip()[-400:]]
         ck.cov.update({'obligations': N_THEOREMS, 'discharged': 0, 'checker_cmd': 'translators/gen_easy_c08.py failed (construct it cannot translate)'})
-    ck.cov['generated_from_source'] = 'lean/MpVerif/Gen/C08Easy.lean: 36 semantic definitions (CSR row-walk components of four functions, reverse-mapping loop, VPerm/VPermInv fields, PermuteVars loop body, ComputeObjValue terms, FeedObjExpression coefficient, NItemsMax, OnSuffix / OnPrimalSolution / FeedSuffixes index arithmetic) + 31 function skeletons, regenerated on every run by translators/gen_easy_c08.py'
+    ck.cov['generated_from_source'] = 'lean/MpVerif/Gen/C08Easy.lean: 37 semantic definitions (StringFileWriter destructor condition, CSR row-walk components of four functions, reverse-mapping loop, VPerm/VPermInv fields, PermuteVars loop body, ComputeObjValue terms, FeedObjExpression coefficient, NItemsMax, OnSuffix / OnPrimalSolution / FeedSuffixes index arithmetic) + 33 function skeletons, regenerated on every run by translators/gen_easy_c08.py'
     ck.log('proof stage: ok=%s failing=%s' % (proof_ok, failing[:10]))
     if ck.tier == 'thorough' and proof_ok:
         badm = ck.leanchecker(['MpVerif.C08.Props'])
@@ -923,9 +925,24 @@ def run(ck):
             nsess += 1
             k = rng.choice([2, 2, 3, 4])
             api = 1 if rng.random() < 0.3 else 0
+            prev = None
             for _ in range(k):
                 c = gen_case(rng, 'g%d' % i, ck.tier, hist)
                 c['session'] = nsess
+                # one working stub per session: alternate named / partially named / unnamed models so that name files
+                # of an earlier model must be replaced or removed
+                if prev is None:
+                    want = rng.choice([(1, 1), (1, 1), (1, 0), (0, 1), (0, 0)])
+                else:
+                    want = tuple((0 if (p_ and rng.random() < 0.6) else rng.randint(0, 1)) for p_ in prev)
+                c['cn'] = ['%s%d' % (rng.choice(['x', 'v', 'col_']), j_) for j_ in range(c['n'])] if want[0] else None
+                c['rn'] = ['%s%d' % (rng.choice(['r', 'con_']), i_) for i_ in range(c['m'])] if want[1] else None
+                hk = hist.setdefault('history_name_files', {})
+                if prev is not None:
+                    for kind_, p_, w_ in (('col', prev[0], want[0]), ('row', prev[1], want[1])):
+                        key_ = '%s:%s->%s' % (kind_, 'named' if p_ else 'none', 'named' if w_ else 'none')
+                        hk[key_] = hk.get(key_, 0) + 1
+                prev = want
                 if c['mode'] == 2:
                     c['mode'] = 1      # the automatic stub belongs to a fresh solver
                 if rng.random() < 0.8:
